@@ -16,7 +16,7 @@ Mirrors the code as it is:
 
 Strings are `List Char`.  Versions are abstract: `Ver V` gives `parse : Str → Option V` (`Version(s)`, `none` =
 `InvalidVersion`) and `le` (`Version.__le__`); theorems assume only that `le` is a total preorder.  `numVer` is the
-instance used by the driver and by the `_cex` theorems (numeric dotted versions with an optional epoch `N!`, trailing zeros insignificant).
+instance used by the driver and by the `_cex` theorems (PEP 440 public and local versions).
 
 `Cfg` carries the two deviation parameters of DESIGN §4.  `current` is the code today, i.e. after the three `fix:`
 commits of /repo (e2ec6b7: `validateFirstPin := true`, a pin is validated before it is looked at at all – findings
@@ -335,17 +335,47 @@ structure World where
   index : Rec                 -- version an unpinned install would fetch
 deriving Repr
 
-def World.installed (w : World) (n : Str) : Option Str := rget w.site n
+/-- separators that PEP 503 name normalisation collapses -/
+def isNameSep (c : Char) : Bool := c == '-' || c == '_' || c == '.'
 
-/-- one requirement: `p==v` succeeds iff `v` is a version, `p` iff the index knows it -/
+/-- PEP 503: lower case, every run of `- _ .` becomes one `-`.  `importlib.metadata` and pip identify a distribution
+by this form – `My_Pkg`, `my-pkg` and `my.pkg` are the same package for them (pyscript compares the raw text) -/
+def normName : Str → Str
+  | [] => []
+  | c :: cs =>
+    if isNameSep c then
+      match normName cs with
+      | '-' :: r => '-' :: r
+      | r => '-' :: r
+    else c.toLower :: normName cs
+
+/-- a plain distribution name as the index / site-packages know it -/
+def envName (c : Char) : Bool := c.isAlphanum || isNameSep c
+def isEnvName (n : Str) : Bool := !n.isEmpty && n.all envName
+
+/-- the distribution a requirement name refers to for the installer: `name` or `name[extra,…]`; anything else
+(pip option, URL, marker, blanks, BOM) is not something it can install -/
+def reqDist (n : Str) : Option Str :=
+  let base := n.takeWhile (fun c => c != '[')
+  let rest := n.dropWhile (fun c => c != '[')
+  if isEnvName base && (rest.isEmpty || rest.getLast? == some ']') then some (normName base) else none
+
+/-- `importlib.metadata.version(name)`: looked up under the normalised name (a name that is not a plain distribution
+name is simply not found) -/
+def World.installed (w : World) (n : Str) : Option Str := rget w.site (normName n)
+
+/-- one requirement: `p==v` succeeds iff `p` names a distribution and `v` is a version, `p` iff the index knows it -/
 def installOne {V} (ver : Ver V) (w : World) (e : Entry) : Option World :=
-  if e.version ≠ UNP then
-    match ver.parse e.version with
-    | some _ => some { w with site := rset w.site e.name e.version }
-    | none => none
-  else match rget w.index e.name with
-    | some v => some { w with site := rset w.site e.name v }
-    | none => none
+  match reqDist e.name with
+  | none => none
+  | some d =>
+    if e.version ≠ UNP then
+      match ver.parse e.version with
+      | some _ => some { w with site := rset w.site d e.version }
+      | none => none
+    else match rget w.index d with
+      | some v => some { w with site := rset w.site d v }
+      | none => none
 
 /-- Home Assistant (`_install_requirements_if_missing`) tries every requirement, keeps what succeeded, and raises
 `RequirementsNotFound` afterwards if any failed; the flag is "no failure" -/
@@ -383,7 +413,19 @@ def runOnce {V} (cfg : Cfg) (ver : Ver V) (w : World) (allowAll : Bool) (r : Rec
         let r' := phase2 w'.installed rec1 ti
         (w', { table := t, args := some (installArgs ti), rec' := r', updated := !dictEq r' r, exc := none })
 
-/-! ## numeric dotted versions – the instance the driver and the witnesses use -/
+/-! ## PEP 440 versions – the instance the driver and the witnesses use
+
+`[v][N!]N(.N)*[{a|b|rc}N][.postN][.devN][+local]` with the spellings `packaging.version` normalises (upper case,
+`alpha`/`beta`/`c`/`pre`/`preview`, `rev`/`r`, `-N` for a post release, optional `- _ .` separators, surrounding
+blanks).  A version is mapped to a list of naturals whose lexicographic order (`leNum`, a proper prefix is smaller)
+is packaging's order:
+
+    epoch :: (release without trailing zeros, each + 5) ++ [pre, preN, post, postN, dev, devN] ++ local
+
+* pre: 0 = dev release without pre/post (sorts before everything of that release), 1/2/3 = a/b/rc, 4 = none
+* post: 0 none, 1 present;  dev: 0 present, 1 none (a dev release sorts before the release it belongs to)
+* a release component (≥ 5) is larger than every `pre` tag, so `1.2.post9 < 1.2.1.dev0`
+* local: nothing = smallest; a numeric segment `[2, n]` beats an alphanumeric one `[1, c₁+1, …, 0]`. -/
 
 def digitVal (c : Char) : Option Nat := if '0' ≤ c ∧ c ≤ '9' then some (c.toNat - 48) else none
 
@@ -393,13 +435,12 @@ def natOfDigits : Str → Nat → Option Nat
     | some d => natOfDigits cs (acc * 10 + d)
     | none => none
 
-def component (s : Str) : Option Nat := if s = [] then none else natOfDigits s 0
+def isDig (c : Char) : Bool := (digitVal c).isSome
 
-def mapOpt {α β} (f : α → Option β) : List α → Option (List β)
-  | [] => some []
-  | x :: xs => match f x, mapOpt f xs with
-    | some y, some ys => some (y :: ys)
-    | _, _ => none
+/-- `[0-9]+` at the front -/
+def readNat (s : Str) : Option (Nat × Str) :=
+  let d := s.takeWhile isDig
+  if d.isEmpty then none else (natOfDigits d 0).map (fun n => (n, s.dropWhile isDig))
 
 /-- drop trailing zeros: `1.0.0` and `1` are the same release -/
 def dropZeros : List Nat → List Nat
@@ -408,19 +449,103 @@ def dropZeros : List Nat → List Nat
     | [] => if x = 0 then [] else [x]
     | ys => x :: ys
 
-/-- the release part `N(.N)*` -/
-def parseRelease (s : Str) : Option (List Nat) := (mapOpt component (splitOn '.' s [])).map dropZeros
+/-- `(.N)*`; the fuel is the length of the input -/
+def relTail : Nat → Str → List Nat × Str
+  | 0, s => ([], s)
+  | f + 1, '.' :: cs =>
+    match readNat cs with
+    | some (n, r) => (n :: (relTail f r).1, (relTail f r).2)
+    | none => ([], '.' :: cs)
+  | _ + 1, s => ([], s)
 
-/-- `[N!]N(.N)*`: the value is `epoch :: release` (epoch 0 when absent), compared lexicographically by `leNum` –
-the epoch decides first, exactly as in `packaging.version` -/
-def parseNum (s : Str) : Option (List Nat) :=
-  match splitOn '!' s [] with
-  | [r] => (parseRelease r).map (fun l => 0 :: l)
-  | [e, r] =>
-    match component e, parseRelease r with
-    | some n, some l => some (n :: l)
+/-- `[-_.]?` -/
+def dropSep : Str → Str
+  | c :: cs => if isNameSep c then cs else c :: cs
+  | [] => []
+
+/-- the first keyword (in the order of the regex alternatives) that is a prefix -/
+def firstKw : List (Str × Nat) → Str → Option (Nat × Str)
+  | [], _ => none
+  | (k, t) :: ks, s => if k.isPrefixOf s then some (t, s.drop k.length) else firstKw ks s
+
+def optNat (s : Str) : Nat × Str :=
+  match readNat s with
+  | some x => x
+  | none => (0, s)
+
+/-- `[-_.]? keyword [-_.]? N?` → (tag, N, rest); `none` and nothing consumed when no keyword follows -/
+def kwSeg (kws : List (Str × Nat)) (s : Str) : Option (Nat × Nat × Str) :=
+  match firstKw kws (dropSep s) with
+  | none => none
+  | some (t, r) => some (t, (optNat (dropSep r)).1, (optNat (dropSep r)).2)
+
+def preKws : List (Str × Nat) :=
+  [("alpha".toList, 1), ("a".toList, 1), ("beta".toList, 2), ("b".toList, 2), ("preview".toList, 3),
+   ("pre".toList, 3), ("c".toList, 3), ("rc".toList, 3)]
+def postKws : List (Str × Nat) := [("post".toList, 1), ("rev".toList, 1), ("r".toList, 1)]
+def devKws : List (Str × Nat) := [("dev".toList, 0)]
+
+/-- post release: `-N` or the keyword form -/
+def postSeg (s : Str) : Option (Nat × Str) :=
+  match s with
+  | '-' :: cs =>
+    match readNat cs with
+    | some (n, r) => some (n, r)
+    | none => (kwSeg postKws s).map (fun x => (x.2.1, x.2.2))
+  | _ => (kwSeg postKws s).map (fun x => (x.2.1, x.2.2))
+
+def splitSeps : Str → Str → List Str
+  | [], acc => [acc.reverse]
+  | c :: rest, acc => if isNameSep c then acc.reverse :: splitSeps rest [] else splitSeps rest (c :: acc)
+
+def encLocalSeg (seg : Str) : Option (List Nat) :=
+  if seg.isEmpty || !seg.all Char.isAlphanum then none
+  else if seg.all isDig then (natOfDigits seg 0).map (fun n => [2, n])
+  else some (1 :: seg.map (fun c => c.toNat + 1) ++ [0])
+
+def encLocal : List Str → Option (List Nat)
+  | [] => some []
+  | x :: xs => match encLocalSeg x, encLocal xs with
+    | some a, some b => some (a ++ b)
     | _, _ => none
+
+/-- everything after the release -/
+def parseSuffix (rel : List Nat) (epoch : Nat) (s : Str) : Option (List Nat) :=
+  let pre := kwSeg preKws s
+  let s1 := match pre with | some x => x.2.2 | none => s
+  let post := postSeg s1
+  let s2 := match post with | some x => x.2 | none => s1
+  let dev := kwSeg devKws s2
+  let s3 := match dev with | some x => x.2.2 | none => s2
+  let preTok : List Nat := match pre with
+    | some x => [x.1, x.2.1]
+    | none => if post.isNone && dev.isSome then [0, 0] else [4, 0]
+  let postTok : List Nat := match post with | some x => [1, x.1] | none => [0, 0]
+  let devTok : List Nat := match dev with | some x => [0, x.2.1] | none => [1, 0]
+  let head := epoch :: (dropZeros rel).map (· + 5) ++ preTok ++ postTok ++ devTok
+  match s3 with
+  | [] => some head
+  | '+' :: l => (encLocal (splitSeps l [])).map (fun e => head ++ e)
   | _ => none
+
+/-- the release and what follows, after the optional epoch -/
+def parseFrom (epoch : Nat) (s : Str) : Option (List Nat) :=
+  match readNat s with
+  | none => none
+  | some (n, r) => parseSuffix (n :: (relTail r.length r).1) epoch (relTail r.length r).2
+
+def stripV : Str → Str
+  | 'v' :: r => r
+  | s => s
+
+def parseNum (s0 : Str) : Option (List Nat) :=
+  let s := stripV ((strip s0).map Char.toLower)
+  match readNat s with
+  | none => none
+  | some (n, r) =>
+    match r with
+    | '!' :: r' => parseFrom n r'
+    | _ => parseFrom 0 s
 
 def leNum : List Nat → List Nat → Bool
   | [], _ => true
